@@ -894,8 +894,12 @@ Module C12.
 
      c12_fairness_needed                  weak fairness (fair_rounds) of c12_returns, liveness clause
      c12_handler_returns_needed           "handler calls return" (= the thread inside the handler is scheduled)
-     c12_mx_inner_returned_needed         `mx_all_returned` in the multiplexed clause of c12_no_call_after
-     c12_mx_inner_returned_needed_fail    same, the late call begins after a handler FAILURE shut the source down
+     c12_mx_fixed_needed                  `fixed = true` (repo_patches/C12_fix_mux_no_call_after_shutdown.diff) of the multiplexed
+                                          clauses of c12_no_call_after: re-export of c12_mux_unfixed_refuted (defect D1 of this
+                                          audit, now repaired; before the repair the theorem carried the hypothesis
+                                          `mx_all_returned`, which hid it)
+     c12_mx_late_call_log                 the log of the late call on the unrepaired wrapper, and the same schedule on the
+                                          repaired one (the waiting source gives up)
      c12_mx_started_needed                `Mx.started i = true` in the 2nd clause of c12_fail_stops_all
      c12_fixed_needed_eternal / _joining  `fixed = true` (the fix: patches) of c12_returns: re-export of the
                                           refutation theorems of Properties/C12.v (known findings, fixed)        *)
@@ -953,54 +957,42 @@ Qed.
 Print Assumptions c12_handler_returns_needed.
 
 (* ------------------------------------------------------------------------------------------------
-   3. `mx_all_returned` (multiplexed clause of c12_no_call_after: "relative to the inner sources having
-      returned from their own Run").  Two inner sources; source 0 is inside the handler, source 1 waits
-      for handlerLock inside the wrapper; a complete external Shutdown; Run returns.  The state satisfies
-      `Mx.returned /\ Mx.terminated` (what the property text calls "Run returned and Terminated reached"),
-      both inner sources are shut down, and then a handler call BEGINS (source 1, block 2). *)
+   3. `fixed = true` of the multiplexed clauses of c12_no_call_after (defect D1, repaired by
+      repo_patches/C12_fix_mux_no_call_after_shutdown.diff).  Two inner sources; source 0 is inside the handler,
+      source 1 waits for handlerLock inside the wrapper; a complete external Shutdown (or: the handler call of
+      source 0 FAILS and its goroutine shuts the source down); Run returns.  On the wrapper before the repair
+      (`Mx.step false`) the state satisfies `Mx.returned /\ Mx.terminated`, both inner sources are shut down, and
+      then a handler call BEGINS (source 1, block 2).  Before the repair c12_no_call_after avoided this by the
+      hypothesis `mx_all_returned` ("relative to the inner sources having returned"); it now holds without it. *)
+Theorem c12_mx_fixed_needed : C12_mux_unfixed_late_call.
+Proof. exact c12_mux_unfixed_refuted. Qed.
+Print Assumptions c12_mx_fixed_needed.
+
 Definition c12_mx_sched1 : list Mx.tid :=
   repeat Mx.TRun 8 ++ [Mx.TIn 0; Mx.TIn 0; Mx.TIn 0; Mx.TIn 1] ++ repeat Mx.TX 4 ++ [Mx.TRun; Mx.TRun].
-Definition c12_mx_s1 : Mx.state := run Mx.step c12_mx_sched1 (Mx.init 2 [[IBlock 1 true]; [IBlock 2 true]]).
+Definition c12_mx_s1 (fx : bool) : Mx.state := run (Mx.step fx) c12_mx_sched1 (Mx.init 2 [[IBlock 1 true]; [IBlock 2 true]]).
 
-Theorem c12_mx_inner_returned_needed :
-  mx_reach c12_mx_s1 /\
-  Mx.returned c12_mx_s1 = true /\ Mx.terminated c12_mx_s1 = true /\
-  map Mx.i_term (Mx.inners c12_mx_s1) = [true; true] /\
-  ~ mx_all_returned c12_mx_s1 /\
-  let s2 := run Mx.step [Mx.TIn 0; Mx.TIn 1; Mx.TIn 1] c12_mx_s1 in
-  Mx.hbegun s2 = S (Mx.hbegun c12_mx_s1) /\
-  Mx.log s2 = EHBegin 1 2 :: EPoint 25 :: EPoint 26 :: EHEnd 0 1 true :: Mx.log c12_mx_s1 /\
-  hd ERet (Mx.log c12_mx_s1) = ERet.
+Theorem c12_mx_late_call_log :
+  (* unrepaired wrapper *)
+  (mx_reach false (c12_mx_s1 false) /\
+   Mx.returned (c12_mx_s1 false) = true /\ Mx.terminated (c12_mx_s1 false) = true /\
+   map Mx.i_term (Mx.inners (c12_mx_s1 false)) = [true; true] /\
+   hd ERet (Mx.log (c12_mx_s1 false)) = ERet /\
+   let s2 := run (Mx.step false) [Mx.TIn 0; Mx.TIn 1; Mx.TIn 1] (c12_mx_s1 false) in
+   Mx.hbegun s2 = S (Mx.hbegun (c12_mx_s1 false)) /\
+   Mx.log s2 = EHBegin 1 2 :: EPoint 25 :: EPoint 26 :: EHEnd 0 1 true :: Mx.log (c12_mx_s1 false)) /\
+  (* repaired wrapper, same schedule: no call begins, the waiting source returns an error and shuts itself down *)
+  (Mx.log (c12_mx_s1 true) = Mx.log (c12_mx_s1 false) /\
+   let s2 := run (Mx.step true) [Mx.TIn 0; Mx.TIn 1; Mx.TIn 1; Mx.TIn 1; Mx.TIn 1] (c12_mx_s1 true) in
+   Mx.hbegun s2 = Mx.hbegun (c12_mx_s1 true) /\
+   Mx.log s2 = EPoint 25 :: EPoint 26 :: EHEnd 0 1 true :: Mx.log (c12_mx_s1 true)).
 Proof.
-  split; [exists 2, [[IBlock 1 true]; [IBlock 2 true]], c12_mx_sched1; reflexivity|].
-  split; [vm_compute; reflexivity|]. split; [vm_compute; reflexivity|]. split; [vm_compute; reflexivity|].
   split.
-  - intro H.
-    assert (E : nth_error (Mx.inners c12_mx_s1) 1 = Some (Mx.mki 1 true (Mx.IWant 2 true) [])) by (vm_compute; reflexivity).
-    apply H in E. vm_compute in E. discriminate.
-  - cbv zeta. split; [vm_compute; reflexivity|]. split; vm_compute; reflexivity.
+  - split; [exists 2, [[IBlock 1 true]; [IBlock 2 true]], c12_mx_sched1; reflexivity|].
+    vm_compute. repeat split; reflexivity.
+  - vm_compute. repeat split; reflexivity.
 Qed.
-Print Assumptions c12_mx_inner_returned_needed.
-
-(* same, but the source is shut down by a handler FAILURE (source 0's handler call returns an error, its
-   goroutine performs the whole Shutdown); source 1, which was waiting for handlerLock, begins a handler
-   call after the failure, after Terminated and after Run returned *)
-Definition c12_mx_sched2 : list Mx.tid :=
-  repeat Mx.TRun 8 ++ [Mx.TIn 0; Mx.TIn 0; Mx.TIn 0; Mx.TIn 1] ++ repeat (Mx.TIn 0) 5 ++ [Mx.TRun; Mx.TRun].
-Definition c12_mx_s3 : Mx.state := run Mx.step c12_mx_sched2 (Mx.init 2 [[IBlock 1 false]; [IBlock 2 true]]).
-
-Theorem c12_mx_inner_returned_needed_fail :
-  mx_reach c12_mx_s3 /\
-  Mx.failed c12_mx_s3 = true /\ Mx.returned c12_mx_s3 = true /\ Mx.terminated c12_mx_s3 = true /\
-  map Mx.i_term (Mx.inners c12_mx_s3) = [true; true] /\
-  let s4 := run Mx.step [Mx.TIn 1; Mx.TIn 1] c12_mx_s3 in
-  Mx.hbegun s4 = S (Mx.hbegun c12_mx_s3) /\ hd ERet (Mx.log s4) = EHBegin 1 2.
-Proof.
-  split; [exists 2, [[IBlock 1 false]; [IBlock 2 true]], c12_mx_sched2; reflexivity|].
-  split; [vm_compute; reflexivity|]. split; [vm_compute; reflexivity|]. split; [vm_compute; reflexivity|].
-  split; [vm_compute; reflexivity|]. cbv zeta. split; vm_compute; reflexivity.
-Qed.
-Print Assumptions c12_mx_inner_returned_needed_fail.
+Print Assumptions c12_mx_late_call_log.
 
 (* ------------------------------------------------------------------------------------------------
    4. `Mx.started i = true` (2nd clause of c12_fail_stops_all).  A complete Shutdown between the factory
@@ -1008,10 +1000,10 @@ Print Assumptions c12_mx_inner_returned_needed_fail.
       neither run NOR shut down (EternalSource / JoiningSource shut such a source down since their fix). *)
 Definition c12_mx_sched3 : list Mx.tid :=
   [Mx.TRun; Mx.TRun; Mx.TRun; Mx.TX; Mx.TX; Mx.TX; Mx.TRun; Mx.TRun; Mx.TX; Mx.TX; Mx.TRun; Mx.TRun].
-Definition c12_mx_s5 : Mx.state := run Mx.step c12_mx_sched3 (Mx.init 1 [[IBlock 1 true]]).
+Definition c12_mx_s5 : Mx.state := run (Mx.step true) c12_mx_sched3 (Mx.init 1 [[IBlock 1 true]]).
 
 Theorem c12_mx_started_needed :
-  mx_reach c12_mx_s5 /\ Mx.done c12_mx_s5 = true /\
+  mx_reach true c12_mx_s5 /\ Mx.done c12_mx_s5 = true /\
   exists i, nth_error (Mx.inners c12_mx_s5) 0 = Some i /\ Mx.started i = false /\ Mx.i_term i = false /\
   rev (Mx.log c12_mx_s5) = [EPoint 20; EPoint 22; EFactory 0 0; EPoint 23; EPoint 24; EPoint 21; ERet].
 Proof.
